@@ -4,6 +4,7 @@ mod csvimp;
 mod diag;
 mod expr;
 mod golden;
+mod imptext;
 mod ledger;
 mod literal;
 mod synproj;
@@ -31,6 +32,7 @@ fn main() {
     let workdir = std::env::var("VH_WORK").unwrap_or_else(|_| "/verif/.work".to_string());
     match mode.as_str() {
         "golden" => runner::run_records(&opts, move |i, r| golden::replay(i, r, &workdir)),
+        "imptext" => { let w = workdir.clone(); runner::run_records(&opts, move |i, r| imptext::replay(i, r, &w)) }
         "ledger" => runner::run_records(&opts, ledger::replay),
         "ledger-alias" => { let w = workdir.clone(); runner::run_records(&opts, move |i, r| ledger::replay_alias(i, r, &w)) }
         "conv" => { let w = workdir.clone(); runner::run_records(&opts, move |i, r| conv::replay(i, r, &w)) }
